@@ -1,6 +1,12 @@
 import BU.Properties.C06
+import BU.Properties.C06_Gen
 #print axioms C06.normalise_strict_lowS
 #print axioms C06.grind_first_lowR
 #print axioms C06.sign_input_spec
 #print axioms C06.lowS_preserves_validity
 #print axioms C06.lowS_preserves_validity_unconditional
+#print axioms C06Gen.index3
+#print axioms C06Gen.i_to_b32_nat
+#print axioms C06Gen.grind_loop
+#print axioms C06Gen.gen_sign_input
+#print axioms C06Gen.gen_sign_input_spec
